@@ -1,142 +1,174 @@
-/-! scratch: screen.py (repaired) as a list-of-lists model; shape and frame lemmas -/
+/-! `pexpect/screen.py` (repaired) as an executable model: the grid is a list of rows of code points,
+    loops are folds, slice assignments are take/drop.  Model only — lemmas are in `ScreenLemmas.lean`. -/
 namespace Scr
 
-def constrain (n lo hi : Int) : Int := if n < lo then lo else if n > hi then hi else n
+abbrev Grid := List (List Nat)
 
-theorem constrain_range {n lo hi : Int} (h : lo ≤ hi) : lo ≤ constrain n lo hi ∧ constrain n lo hi ≤ hi := by
-  unfold constrain; split
-  · omega
-  · split <;> omega
+def SPACE : Nat := 32
+
+def constrain (n lo hi : Int) : Int := if n < lo then lo else if n > hi then hi else n
 
 structure Screen where
   rows : Nat
   cols : Nat
-  w : List (List Char)
+  w : Grid
   curR : Int
   curC : Int
   savR : Int
   savC : Int
   scrS : Int
   scrE : Int
+deriving Repr, DecidableEq
 
-def Shape (s : Screen) : Prop := s.w.length = s.rows ∧ ∀ row ∈ s.w, row.length = s.cols
+/-- `screen(r, c)` -/
+def blank (r c : Nat) : Screen :=
+  { rows := r, cols := c, w := List.replicate r (List.replicate c SPACE),
+    curR := 1, curC := 1, savR := 1, savC := 1, scrS := 1, scrE := r }
 
-/-- `w[i][j] = ch` (0-based); out-of-range indices are Python IndexErrors and never happen under `Shape` -/
-def setCell (w : List (List Char)) (i j : Nat) (ch : Char) : List (List Char) :=
-  w.set i ((w.getD i []).set j ch)
+/-- `w[i][j] = ch` (0-based) -/
+def setCell (w : Grid) (i j : Nat) (ch : Nat) : Grid := w.set i ((w.getD i []).set j ch)
 
-def getCell (w : List (List Char)) (i j : Nat) : Char := (w.getD i []).getD j ' '
+/-- `w[i][j]` (0-based) -/
+def getCell (w : Grid) (i j : Nat) : Nat := (w.getD i []).getD j SPACE
 
-theorem setCell_length (w : List (List Char)) (i j : Nat) (ch : Char) : (setCell w i j ch).length = w.length := by
-  simp [setCell]
+/-- 0-based index of a 1-based coordinate after `constrain` -/
+def idx (n : Int) (hi : Nat) : Nat := (constrain n 1 hi - 1).toNat
 
-theorem setCell_rows (w : List (List Char)) (i j : Nat) (ch : Char) (n : Nat)
-    (h : ∀ row ∈ w, row.length = n) : ∀ row ∈ setCell w i j ch, row.length = n := by
-  intro row hrow
-  unfold setCell at hrow
-  rcases List.mem_or_eq_of_mem_set hrow with h1 | h1
-  · exact h row h1
-  · subst h1
-    simp only [List.length_set]
-    by_cases hi : i < w.length
-    · have : w.getD i [] = w[i] := by simp [List.getD, hi]
-      rw [this]; exact h _ (List.getElem_mem hi)
-    · -- then `set` did nothing and `row` cannot be new; but length of getD default [] = 0
-      have : (w.set i ((w.getD i []).set j ch)) = w := by
-        apply List.set_eq_of_length_le; omega
-      rw [this] at hrow
-      have := h _ hrow
-      simpa using this
+def putAbs (s : Screen) (r c : Int) (ch : Nat) : Screen :=
+  { s with w := setCell s.w (idx r s.rows) (idx c s.cols) ch }
 
-theorem getCell_setCell (w : List (List Char)) (i j i' j' : Nat) (ch : Char)
-    (hi : i < w.length) (hj : j < (w.getD i []).length) :
-    getCell (setCell w i j ch) i' j' = if i' = i ∧ j' = j then ch else getCell w i' j' := by
-  unfold getCell setCell
-  by_cases h1 : i' = i
-  · subst h1
-    simp only [List.getD_eq_getElem?_getD, List.getElem?_set_self hi, Option.getD_some, true_and]
-    by_cases h2 : j' = j
-    · subst h2
-      simp [List.getElem?_set_self (by simpa [List.getD_eq_getElem?_getD] using hj)]
-    · simp [h2, List.getElem?_set_ne (Ne.symm h2)]
-  · simp [h1, List.getElem?_set_ne (Ne.symm h1)]
+def getAbs (s : Screen) (r c : Int) : Nat := getCell s.w (idx r s.rows) (idx c s.cols)
 
-def putAbs (s : Screen) (r c : Int) (ch : Char) : Screen :=
-  let r' := constrain r 1 s.rows
-  let c' := constrain c 1 s.cols
-  { s with w := setCell s.w (r' - 1).toNat (c' - 1).toNat ch }
+def put (s : Screen) (ch : Nat) : Screen := putAbs s s.curR s.curC ch
+def get (s : Screen) : Nat := getAbs s s.curR s.curC
 
-theorem putAbs_shape (s : Screen) (r c : Int) (ch : Char) (h : Shape s) : Shape (putAbs s r c ch) := by
-  obtain ⟨h1, h2⟩ := h
-  exact ⟨by simp [putAbs, setCell_length, h1], setCell_rows _ _ _ _ _ h2⟩
+/-- `range(a, b+1)` -/
+def rangeI (a b : Int) : List Int := (List.range (b + 1 - a).toNat).map (fun (k : Nat) => a + (k : Int))
+
+/-- the corner normalisation shared by `fill_region` and `get_region` -/
+def corners (s : Screen) (rs cs re ce : Int) : Int × Int × Int × Int :=
+  let rs := constrain rs 1 s.rows
+  let re := constrain re 1 s.rows
+  let cs := constrain cs 1 s.cols
+  let ce := constrain ce 1 s.cols
+  let (rs, re) := if rs > re then (re, rs) else (rs, re)
+  let (cs, ce) := if cs > ce then (ce, cs) else (cs, ce)
+  (rs, cs, re, ce)
+
+def fillRegion (s : Screen) (rs cs re ce : Int) (ch : Nat) : Screen :=
+  let (rs, cs, re, ce) := corners s rs cs re ce
+  (rangeI rs re).foldl (fun s r => (rangeI cs ce).foldl (fun s c => putAbs s r c ch) s) s
+
+def fill (s : Screen) (ch : Nat) : Screen := fillRegion s 1 1 s.rows s.cols ch
+
+def getRegion (s : Screen) (rs cs re ce : Int) : List (List Nat) :=
+  let (rs, cs, re, ce) := corners s rs cs re ce
+  (rangeI rs re).map (fun r => (rangeI cs ce).map (fun c => getAbs s r c))
+
+/-- `range(cols, c, -1)` -/
+def downRange (hi lo : Int) : List Int := (List.range (hi - lo).toNat).map (fun (k : Nat) => hi - (k : Int))
+
+def insertAbs (s : Screen) (r c : Int) (ch : Nat) : Screen :=
+  let r := constrain r 1 s.rows
+  let c := constrain c 1 s.cols
+  let s1 := (downRange s.cols c).foldl (fun s ci => putAbs s r ci (getAbs s r (ci - 1))) s
+  putAbs s1 r c ch
+
+def insert (s : Screen) (ch : Nat) : Screen := insertAbs s s.curR s.curC ch
+
+def cursorConstrain (s : Screen) : Screen :=
+  { s with curR := constrain s.curR 1 s.rows, curC := constrain s.curC 1 s.cols }
+
+def cursorHome (s : Screen) (r c : Int) : Screen := cursorConstrain { s with curR := r, curC := c }
+def cursorBack (s : Screen) (n : Int) : Screen := cursorConstrain { s with curC := s.curC - n }
+def cursorDown (s : Screen) (n : Int) : Screen := cursorConstrain { s with curR := s.curR + n }
+def cursorForward (s : Screen) (n : Int) : Screen := cursorConstrain { s with curC := s.curC + n }
+def cursorUp (s : Screen) (n : Int) : Screen := cursorConstrain { s with curR := s.curR - n }
+
+def cursorSave (s : Screen) : Screen := { s with savR := s.curR, savC := s.curC }
+def cursorRestore (s : Screen) : Screen := cursorHome s s.savR s.savC
+
+def scrollScreen (s : Screen) : Screen := { s with scrS := 1, scrE := s.rows }
+def scrollScreenRows (s : Screen) (rs re : Int) : Screen :=
+  { s with scrS := constrain rs 1 s.rows, scrE := constrain re 1 s.rows }
 
 /-- Python's `w[s:e] = w[s+1:e+1]` for 0 ≤ s, e < rows -/
-def scrollUpRows (w : List (List Char)) (s e : Nat) : List (List Char) :=
+def scrollUpRows (w : Grid) (s e : Nat) : Grid :=
   if s ≤ e then w.take s ++ (w.drop (s + 1)).take (e - s) ++ w.drop e else w
 
 /-- Python's `w[s+1:e+1] = w[s:e]` -/
-def scrollDownRows (w : List (List Char)) (s e : Nat) : List (List Char) :=
+def scrollDownRows (w : Grid) (s e : Nat) : Grid :=
   if s ≤ e then w.take (s + 1) ++ (w.drop s).take (e - s) ++ w.drop (e + 1) else w
 
 def scrollUp (s : Screen) : Screen := { s with w := scrollUpRows s.w (s.scrS - 1).toNat (s.scrE - 1).toNat }
 def scrollDown (s : Screen) : Screen := { s with w := scrollDownRows s.w (s.scrS - 1).toNat (s.scrE - 1).toNat }
 
-/-- the repaired `scroll_constrain` keeps both ends on the screen -/
-def RegionOK (s : Screen) : Prop := 1 ≤ s.scrS ∧ s.scrS ≤ s.rows ∧ 1 ≤ s.scrE ∧ s.scrE ≤ s.rows
+def cursorUpReverse (s : Screen) : Screen :=
+  let s1 := cursorUp s 1
+  if s.curR = s1.curR then scrollUp s1 else s1
 
-def scrollScreenRows (s : Screen) (rs re : Int) : Screen :=
-  { s with scrS := constrain rs 1 s.rows, scrE := constrain re 1 s.rows }
+def eraseEndOfLine (s : Screen) : Screen := fillRegion s s.curR s.curC s.curR s.cols SPACE
+def eraseStartOfLine (s : Screen) : Screen := fillRegion s s.curR 1 s.curR s.curC SPACE
+def eraseLine (s : Screen) : Screen := fillRegion s s.curR 1 s.curR s.cols SPACE
+def eraseDown (s : Screen) : Screen :=
+  let s1 := eraseEndOfLine s
+  if s1.curR < s1.rows then fillRegion s1 (s1.curR + 1) 1 s1.rows s1.cols SPACE else s1
+def eraseUp (s : Screen) : Screen :=
+  let s1 := eraseStartOfLine s
+  if s1.curR > 1 then fillRegion s1 (s1.curR - 1) 1 1 s1.cols SPACE else s1
+def eraseScreen (s : Screen) : Screen := fill s SPACE
 
-theorem scrollScreenRows_ok (s : Screen) (rs re : Int) (hr : 1 ≤ s.rows) : RegionOK (scrollScreenRows s rs re) := by
-  have h1 := @constrain_range rs 1 s.rows (by omega)
-  have h2 := @constrain_range re 1 s.rows (by omega)
-  exact ⟨h1.1, h1.2, h2.1, h2.2⟩
+def cr (s : Screen) : Screen := cursorHome s s.curR 1
+def lf (s : Screen) : Screen :=
+  let s1 := cursorDown s 1
+  if s.curR = s1.curR then eraseLine (scrollUp s1) else s1
+def crlf (s : Screen) : Screen := lf (cr s)
 
-theorem scrollUp_shape (s : Screen) (h : Shape s) (hr : RegionOK s) : Shape (scrollUp s) := by
-  obtain ⟨h1, h2⟩ := h
-  obtain ⟨a, b, c, d⟩ := hr
-  unfold scrollUp scrollUpRows
-  constructor
-  · simp only
-    split
-    · simp only [List.length_append, List.length_take, List.length_drop, h1]; omega
-    · exact h1
-  · intro row hrow
-    simp only at hrow
-    split at hrow
-    · simp only [List.mem_append] at hrow
-      rcases hrow with (hm | hm) | hm
-      · exact h2 row (List.mem_of_mem_take hm)
-      · exact h2 row (List.mem_of_mem_drop (List.mem_of_mem_take hm))
-      · exact h2 row (List.mem_of_mem_drop hm)
-    · exact h2 row hrow
+def dump (s : Screen) : List Nat := s.w.flatten
+/-- `str(screen)`: rows joined by newline -/
+def toStr (s : Screen) : List Nat := List.intercalate [10] s.w
+/-- `pretty()` -/
+def pretty (s : Screen) : List Nat :=
+  let topBot := [43] ++ List.replicate s.cols 45 ++ [43, 10]
+  topBot ++ List.intercalate [10] (s.w.map (fun line => [124] ++ line ++ [124])) ++ [10] ++ topBot
 
-theorem scrollDown_shape (s : Screen) (h : Shape s) (hr : RegionOK s) : Shape (scrollDown s) := by
-  obtain ⟨h1, h2⟩ := h
-  obtain ⟨a, b, c, d⟩ := hr
-  unfold scrollDown scrollDownRows
-  constructor
-  · simp only
-    split
-    · simp only [List.length_append, List.length_take, List.length_drop, h1]; omega
-    · exact h1
-  · intro row hrow
-    simp only at hrow
-    split at hrow
-    · simp only [List.mem_append] at hrow
-      rcases hrow with (hm | hm) | hm
-      · exact h2 row (List.mem_of_mem_take hm)
-      · exact h2 row (List.mem_of_mem_drop (List.mem_of_mem_take hm))
-      · exact h2 row (List.mem_of_mem_drop hm)
-    · exact h2 row hrow
+inductive SOp where
+  | putAbs (r c : Int) (ch : Nat) | put (ch : Nat) | insertAbs (r c : Int) (ch : Nat) | insert (ch : Nat)
+  | fill (ch : Nat) | fillRegion (rs cs re ce : Int) (ch : Nat)
+  | cursorHome (r c : Int) | cursorBack (n : Int) | cursorDown (n : Int) | cursorForward (n : Int) | cursorUp (n : Int)
+  | cursorUpReverse | cursorSave | cursorRestore
+  | scrollScreen | scrollScreenRows (rs re : Int) | scrollUp | scrollDown
+  | eraseEndOfLine | eraseStartOfLine | eraseLine | eraseDown | eraseUp | eraseScreen
+  | cr | lf | crlf
+deriving Repr
 
-/-- the defect, as a kernel-checked witness: with the unrepaired region `end = 0`, `w[0:-1] = w[1:0]`
-    deletes rows; modelled with Python's negative-index slice -/
-def scrollUpRowsPre (w : List (List Char)) (s : Nat) (e : Int) : List (List Char) :=
-  let e' : Nat := if e < 0 then (w.length : Int) + e |>.toNat else e.toNat       -- slice end normalisation
-  let e1 : Nat := if e + 1 < 0 then ((w.length : Int) + e + 1).toNat else (e + 1).toNat
-  w.take s ++ (w.drop (s + 1)).take (e1 - (s + 1)) ++ w.drop (max s e')
-
-example : (scrollUpRowsPre [['a'], ['b'], ['c'], ['d']] 0 (-1)).length = 1 := by decide
+def apply : SOp → Screen → Screen
+  | .putAbs r c ch, s => putAbs s r c ch
+  | .put ch, s => put s ch
+  | .insertAbs r c ch, s => insertAbs s r c ch
+  | .insert ch, s => insert s ch
+  | .fill ch, s => fill s ch
+  | .fillRegion rs cs re ce ch, s => fillRegion s rs cs re ce ch
+  | .cursorHome r c, s => cursorHome s r c
+  | .cursorBack n, s => cursorBack s n
+  | .cursorDown n, s => cursorDown s n
+  | .cursorForward n, s => cursorForward s n
+  | .cursorUp n, s => cursorUp s n
+  | .cursorUpReverse, s => cursorUpReverse s
+  | .cursorSave, s => cursorSave s
+  | .cursorRestore, s => cursorRestore s
+  | .scrollScreen, s => scrollScreen s
+  | .scrollScreenRows rs re, s => scrollScreenRows s rs re
+  | .scrollUp, s => scrollUp s
+  | .scrollDown, s => scrollDown s
+  | .eraseEndOfLine, s => eraseEndOfLine s
+  | .eraseStartOfLine, s => eraseStartOfLine s
+  | .eraseLine, s => eraseLine s
+  | .eraseDown, s => eraseDown s
+  | .eraseUp, s => eraseUp s
+  | .eraseScreen, s => eraseScreen s
+  | .cr, s => cr s
+  | .lf, s => lf s
+  | .crlf, s => crlf s
 
 end Scr
